@@ -40,4 +40,3 @@ apply: (le_lt_trans (Hmax _ qin)).
 by rewrite ltr_pmulr.
 Qed.
 End Mvee.
-Print Assumptions C07_chol_frame. Print Assumptions C07_mvee_enclose.
